@@ -165,7 +165,9 @@ def _conform_filename(
         return filename, True
 
     with open(filename, "rt") as f:
-        parsed_ast = ast_parse(f.read(), filename=filename)
+        parsed_ast = ast_parse(
+            f.read(), filename=filename, skip_docstring_remit=True
+        )
     assert isinstance(parsed_ast, Module)
 
     original_node = find_in_ast(search, parsed_ast)
